@@ -1,0 +1,47 @@
+//go:build verif
+
+package disk
+
+// Accessors for the start-up (directory loading) driver of the verification
+// harness under /verif (build tag "verif"). Nothing here is compiled into a
+// normal build.
+
+import "github.com/buchgr/bazel-remote/v2/cache"
+
+func verifLoadDiskCache(c Cache) *diskCache {
+	switch x := c.(type) {
+	case *diskCache:
+		return x
+	case *metricsDecorator:
+		return x.diskCache
+	}
+	panic("unexpected Cache implementation")
+}
+
+// VerifLoadSnapshot returns the index state of a cache created by New.
+func VerifLoadSnapshot(c Cache) VerifSnapshot {
+	dc := verifLoadDiskCache(c)
+	dc.mu.Lock()
+	defer dc.mu.Unlock()
+	return verifSnapshot(&dc.lru)
+}
+
+// VerifLoadQueuedBytes returns queuedEvictionsSize.
+func VerifLoadQueuedBytes(c Cache) int64 {
+	return verifLoadDiskCache(c).lru.queuedEvictionsSize.Load()
+}
+
+// VerifLoadFileLocation exposes (*diskCache).FileLocation.
+func VerifLoadFileLocation(c Cache, kind cache.EntryKind, legacy bool, hash string, size int64, random string) string {
+	return verifLoadDiskCache(c).FileLocation(kind, legacy, hash, size, random)
+}
+
+// VerifLoadFileLocationBase exposes (*diskCache).FileLocationBase.
+func VerifLoadFileLocationBase(c Cache, kind cache.EntryKind, legacy bool, hash string, size int64) string {
+	return verifLoadDiskCache(c).FileLocationBase(kind, legacy, hash, size)
+}
+
+// VerifLoadElementPath exposes (*diskCache).getElementPath.
+func VerifLoadElementPath(c Cache, key string, item VerifItem) string {
+	return verifLoadDiskCache(c).getElementPath(key, fromVerifItem(item))
+}
